@@ -734,7 +734,8 @@ class Shelxfile():
             elif word == 'NEUT':
                 # NEUT
                 # TODO: Implement NEUT class
-                if lastcard != 'SYMM':
+                # NEUT stands between the symmetry and SFAC. P1 and P-1 have no SYMM instruction, LATT is not tracked:
+                if lastcard not in ('SYMM', 'ZERR'):
                     raise ParseOrderError(debug=self.debug, verbose=self.verbose)
             elif word == 'OMIT':
                 # OMIT atomnames  or  OMIT s[-2] 2θ(lim)[180]  or  OMIT h k l
